@@ -116,16 +116,21 @@ fn js_result_slot_probe(rep: &mut Report) {
         grid.push(($on, "Five", lay::<$ot, Five>())); grid.push(($on, "Four", lay::<$ot, Four>())); grid.push(($on, "Six", lay::<$ot, Six>()));
         grid.push(($on, "Wide", lay::<$ot, Wide>())); grid.push(($on, "Mix", lay::<$ot, Mix>())); grid.push(($on, "Nine", lay::<$ot, Nine>()));
     } }
+    row!("write", ()); // the success value is a string that travels through the write buffer: on the wire `Result<(), E>`
     row!("()", ()); row!("u8", u8); row!("i16", i16); row!("u32", u32); row!("f64", f64); row!("bool", bool);
     row!("Tiny", Tiny); row!("Two", Two); row!("Half", Half); row!("Five", Five); row!("Four", Four); row!("Six", Six); row!("Wide", Wide); row!("Mix", Mix); row!("Nine", Nine);
     let mut src = String::from("#[diplomat::bridge]\nmod ffi {\n    #[diplomat::out] pub struct Tiny { pub a: u8 }\n    #[diplomat::out] pub struct Two { pub a: u8, pub b: u8 }\n    #[diplomat::out] pub struct Half { pub a: u16 }\n    #[diplomat::out] pub struct Five { pub a: u8, pub b: u8, pub c: u8, pub d: u8, pub e: u8 }\n    #[diplomat::out] pub struct Four { pub x: u32 }\n    #[diplomat::out] pub struct Six { pub a: u16, pub b: u16, pub c: u16 }\n    #[diplomat::out] pub struct Wide { pub x: u64 }\n    #[diplomat::out] pub struct Mix { pub a: u8, pub x: u64 }\n    #[diplomat::out] pub struct Nine { pub x: f64, pub a: u8 }\n    #[diplomat::opaque]\n    pub struct Src;\n    impl Src {\n");
     for (i, (ok, err, _)) in grid.iter().enumerate() {
-        src += &format!("        pub fn m{i}x(&self) -> Result<{ok}, {err}> {{ unimplemented!() }}\n");
+        if *ok == "write" {
+            src += &format!("        pub fn m{i}x(&self, w: &mut DiplomatWrite) -> Result<(), {err}> {{ unimplemented!() }}\n");
+        } else {
+            src += &format!("        pub fn m{i}x(&self) -> Result<{ok}, {err}> {{ unimplemented!() }}\n");
+        }
     }
     src += "    }\n}\n";
     // the model of the slot computation (JsSlot.lean; Props/C10 proves it is the wire layout) on the same grid
     let wty = |n: &str| -> String { match n {
-        "()" => "unit".into(), "u8" | "bool" => "(s 1)".into(), "i16" => "(s 2)".into(), "u32" => "(s 4)".into(), "f64" => "(s 8)".into(),
+        "()" => "unit".into(), "write" => "write".into(), "u8" | "bool" => "(s 1)".into(), "i16" => "(s 2)".into(), "u32" => "(s 4)".into(), "f64" => "(s 8)".into(),
         "Tiny" => "(st (s 1))".into(), "Two" => "(st (s 1) (s 1))".into(), "Half" => "(st (s 2))".into(), "Five" => "(st (s 1) (s 1) (s 1) (s 1) (s 1))".into(),
         "Four" => "(st (s 4))".into(), "Six" => "(st (s 2) (s 2) (s 2))".into(), "Wide" => "(st (s 8))".into(), "Mix" => "(st (s 1) (s 8))".into(), "Nine" => "(st (s 8) (s 1))".into(),
         o => panic!("{o}") } };
